@@ -3,6 +3,7 @@ CONSTANTS
   MaxReasonable = 1048576
   Alphabet = {48, 49, 50, 57, 44, 45}
   MaxLen = 5
+  EmitLen = 5
   SmallMax = 4
   TopoN = 3
   TopoMs = {0, 1, 2}
